@@ -81,6 +81,7 @@ __CPROVER_ensures(__CPROVER_return_value == LE64_AT(xp))
 uint8_t *c_fixed32_write(uint8_t *zp, uint32_t x)
 __CPROVER_requires(__CPROVER_w_ok(zp, 4))
 __CPROVER_assigns(__CPROVER_object_upto(zp, 4))
+__CPROVER_ensures(__CPROVER_pointer_in_range_dfcc(zp, __CPROVER_return_value, zp + 4))
 __CPROVER_ensures(__CPROVER_return_value == zp + 4)
 __CPROVER_ensures(IS_LE32(zp, x))
 ;
@@ -88,6 +89,7 @@ __CPROVER_ensures(IS_LE32(zp, x))
 uint8_t *c_fixed64_write(uint8_t *zp, uint64_t x)
 __CPROVER_requires(__CPROVER_w_ok(zp, 8))
 __CPROVER_assigns(__CPROVER_object_upto(zp, 8))
+__CPROVER_ensures(__CPROVER_pointer_in_range_dfcc(zp, __CPROVER_return_value, zp + 8))
 __CPROVER_ensures(__CPROVER_return_value == zp + 8)
 __CPROVER_ensures(IS_LE64(zp, x))
 ;
@@ -96,6 +98,8 @@ int c_fixed32_read(uint32_t *z, const uint8_t **xp, size_t *xn)
 __CPROVER_requires(__CPROVER_w_ok(z, sizeof(*z)) && __CPROVER_rw_ok(xp, sizeof(*xp)) && __CPROVER_rw_ok(xn, sizeof(*xn)))
 __CPROVER_requires(__CPROVER_r_ok(*xp, *xn))
 __CPROVER_assigns(*z, *xp, *xn)
+/* re-binds the advanced cursor to the input object when the contract replaces a call (dfcc loses the points-to set otherwise) */
+__CPROVER_ensures(__CPROVER_pointer_in_range_dfcc(__CPROVER_old(*xp), *xp, __CPROVER_old(*xp) + __CPROVER_old(*xn)))
 __CPROVER_ensures(__CPROVER_return_value == (__CPROVER_old(*xn) >= 4 ? 1 : 0))
 __CPROVER_ensures(__CPROVER_return_value == 1 ==> (*xn == __CPROVER_old(*xn) - 4 && *xp == __CPROVER_old(*xp) + 4 && *z == LE32_AT(__CPROVER_old(*xp))))
 __CPROVER_ensures(__CPROVER_return_value == 0 ==> (*xn == __CPROVER_old(*xn) && *xp == __CPROVER_old(*xp)))
@@ -105,6 +109,8 @@ int c_fixed64_read(uint64_t *z, const uint8_t **xp, size_t *xn)
 __CPROVER_requires(__CPROVER_w_ok(z, sizeof(*z)) && __CPROVER_rw_ok(xp, sizeof(*xp)) && __CPROVER_rw_ok(xn, sizeof(*xn)))
 __CPROVER_requires(__CPROVER_r_ok(*xp, *xn))
 __CPROVER_assigns(*z, *xp, *xn)
+/* re-binds the advanced cursor to the input object when the contract replaces a call (dfcc loses the points-to set otherwise) */
+__CPROVER_ensures(__CPROVER_pointer_in_range_dfcc(__CPROVER_old(*xp), *xp, __CPROVER_old(*xp) + __CPROVER_old(*xn)))
 __CPROVER_ensures(__CPROVER_return_value == (__CPROVER_old(*xn) >= 8 ? 1 : 0))
 __CPROVER_ensures(__CPROVER_return_value == 1 ==> (*xn == __CPROVER_old(*xn) - 8 && *xp == __CPROVER_old(*xp) + 8 && *z == LE64_AT(__CPROVER_old(*xp))))
 __CPROVER_ensures(__CPROVER_return_value == 0 ==> (*xn == __CPROVER_old(*xn) && *xp == __CPROVER_old(*xp)))
@@ -125,6 +131,7 @@ __CPROVER_ensures(__CPROVER_return_value == V64_SIZE(x))
 uint8_t *c_varint32_write(uint8_t *zp, uint32_t x)
 __CPROVER_requires(__CPROVER_w_ok(zp, V32_SIZE(x)))
 __CPROVER_assigns(__CPROVER_object_from(zp))
+__CPROVER_ensures(__CPROVER_pointer_in_range_dfcc(zp, __CPROVER_return_value, zp + V32_SIZE(x)))
 __CPROVER_ensures(__CPROVER_return_value == zp + V32_SIZE(x))
 __CPROVER_ensures(V_WELLFORMED(zp, V32_SIZE(x)))
 __CPROVER_ensures(V32_VAL(zp, V32_SIZE(x)) == x)
@@ -133,6 +140,7 @@ __CPROVER_ensures(V32_VAL(zp, V32_SIZE(x)) == x)
 uint8_t *c_varint64_write(uint8_t *zp, uint64_t x)
 __CPROVER_requires(__CPROVER_w_ok(zp, V64_SIZE(x)))
 __CPROVER_assigns(__CPROVER_object_from(zp))
+__CPROVER_ensures(__CPROVER_pointer_in_range_dfcc(zp, __CPROVER_return_value, zp + V64_SIZE(x)))
 __CPROVER_ensures(__CPROVER_return_value == zp + V64_SIZE(x))
 __CPROVER_ensures(V_WELLFORMED(zp, V64_SIZE(x)))
 __CPROVER_ensures(V64_VAL(zp, V64_SIZE(x)) == x)
@@ -142,6 +150,8 @@ int c_varint32_read(uint32_t *z, const uint8_t **xp, size_t *xn)
 __CPROVER_requires(__CPROVER_w_ok(z, sizeof(*z)) && __CPROVER_rw_ok(xp, sizeof(*xp)) && __CPROVER_rw_ok(xn, sizeof(*xn)))
 __CPROVER_requires(__CPROVER_r_ok(*xp, *xn))
 __CPROVER_assigns(*z, *xp, *xn)
+/* re-binds the advanced cursor to the input object when the contract replaces a call (dfcc loses the points-to set otherwise) */
+__CPROVER_ensures(__CPROVER_pointer_in_range_dfcc(__CPROVER_old(*xp), *xp, __CPROVER_old(*xp) + __CPROVER_old(*xn)))
 __CPROVER_ensures(POST_VREAD_CURSOR(__CPROVER_return_value, *xp, *xn, __CPROVER_old(*xp), __CPROVER_old(*xn), 5))
 __CPROVER_ensures(POST_VREAD_OK(__CPROVER_return_value, *xp, *xn, __CPROVER_old(*xp), __CPROVER_old(*xn)))
 __CPROVER_ensures(POST_VREAD_FAIL(__CPROVER_return_value, *z, *xp, *xn, __CPROVER_old(*xp), __CPROVER_old(*xn), 5))
@@ -152,6 +162,8 @@ int c_varint64_read(uint64_t *z, const uint8_t **xp, size_t *xn)
 __CPROVER_requires(__CPROVER_w_ok(z, sizeof(*z)) && __CPROVER_rw_ok(xp, sizeof(*xp)) && __CPROVER_rw_ok(xn, sizeof(*xn)))
 __CPROVER_requires(__CPROVER_r_ok(*xp, *xn))
 __CPROVER_assigns(*z, *xp, *xn)
+/* re-binds the advanced cursor to the input object when the contract replaces a call (dfcc loses the points-to set otherwise) */
+__CPROVER_ensures(__CPROVER_pointer_in_range_dfcc(__CPROVER_old(*xp), *xp, __CPROVER_old(*xp) + __CPROVER_old(*xn)))
 __CPROVER_ensures(POST_VREAD_CURSOR(__CPROVER_return_value, *xp, *xn, __CPROVER_old(*xp), __CPROVER_old(*xn), 10))
 __CPROVER_ensures(POST_VREAD_OK(__CPROVER_return_value, *xp, *xn, __CPROVER_old(*xp), __CPROVER_old(*xn)))
 __CPROVER_ensures(POST_VREAD_FAIL(__CPROVER_return_value, *z, *xp, *xn, __CPROVER_old(*xp), __CPROVER_old(*xn), 10))
@@ -164,6 +176,8 @@ int c_zraw_read(const uint8_t **zp, size_t zn, const uint8_t **xp, size_t *xn)
 __CPROVER_requires(__CPROVER_w_ok(zp, sizeof(*zp)) && __CPROVER_rw_ok(xp, sizeof(*xp)) && __CPROVER_rw_ok(xn, sizeof(*xn)))
 __CPROVER_requires(__CPROVER_r_ok(*xp, *xn))
 __CPROVER_assigns(*zp, *xp, *xn)
+/* re-binds the advanced cursor to the input object when the contract replaces a call (dfcc loses the points-to set otherwise) */
+__CPROVER_ensures(__CPROVER_pointer_in_range_dfcc(__CPROVER_old(*xp), *xp, __CPROVER_old(*xp) + __CPROVER_old(*xn)))
 __CPROVER_ensures(__CPROVER_return_value == (__CPROVER_old(*xn) >= zn ? 1 : 0))
 __CPROVER_ensures(__CPROVER_return_value == 1 ==> (*zp == __CPROVER_old(*xp) && *xp == __CPROVER_old(*xp) + zn && *xn == __CPROVER_old(*xn) - zn))
 __CPROVER_ensures(__CPROVER_return_value == 0 ==> (*xp == __CPROVER_old(*xp) && *xn == __CPROVER_old(*xn)))
